@@ -504,13 +504,16 @@ def bounded(rep, M):
             sc = np.array(T.quantization.scale, np.float64); zp = np.array(T.quantization.zeroPoint, np.int64)
             if sc.size > 1: sc = sc.reshape(-1, 1); zp = zp.reshape(-1, 1)
             err = np.abs((codes - zp) * sc - data.astype(np.float64)) / sc; worst = max(worst, float(err.max()))
-            if len(raw) != ((n + 1) // 2 if bits == 4 else n) or err.max() > (0.5 if sym else 1.0) * (1 + 1e-3) + 1e-3: f2 += 1
+            if len(raw) != ((n + 1) // 2 if bits == 4 else n) or err.max() > (0.5 if sym else 1.0) * (1 + 1e-3) + 1e-3:
+                f2 += 1
+                if not DECODE_FAIL: DECODE_FAIL.append(dict(bits=bits, symmetric=sym, granularity=str(gran), shape=list(shape), content_seed=seed, stored_bytes=len(raw), worst_error_in_steps=float(err.max()), allowed_steps=0.5 if sym else 1.0))
     if E2E:
         rep.add_bounded('registered materialize function -> quantize_tensor on the minimal op: stored byte length vs written type and shape', 'every constant with QUANTIZE_TENSOR / ADD_DEQUANTIZE of the materialize table (the structural cause is the obligation family "materialize")', E2E[0][0], E2E[0][1],
                         note='failures here are the natively observed consequence of the refuted materialize obligations (INT8 tensor keeping its float32 bytes)')
     rep.add_bounded('init_tensor_min_max -> _get_tensor_quant_params -> quantize_tensor -> independent decode (binary32 arithmetic of the real code)', f'4/8 bit x sym/asym x per-tensor/per-channel x 4 shapes (odd and even sizes) x 3 contents; worst error {worst:.4f} steps', cases, f2)
     return fails + f2
 
+DECODE_FAIL = []
 # ------------------------------------------------------------------------------------------------ canaries
 CANARIES = [
     ('_pack_data: [::2] and [1::2] swapped', cc.QT, [('flattened_data[::2] & 0x0F', 'flattened_data[1::2] & 0x0F'), ('np.left_shift(flattened_data[1::2], 4)', 'np.left_shift(flattened_data[::2], 4)')], 'pack', ['bitwidth4.n-even.low-nibble-is-element-2k', 'bitwidth4.n-even.high-nibble-is-element-2k+1']),
@@ -582,7 +585,28 @@ def run(rep):
     res = cc.discharge(goals); cc.register(rep, 'C05', fns, goals, res)
     base = {g.id: r[0] for g, r in zip(goals, res)}
     fails = bounded(rep, M); saturation_note(rep, M)
-    if (fails or (E2E and E2E[0][1])) and all(v == 'proved' for v in base.values()): rep.errors.append('bounded stand-in disagrees with the proved obligations')
+    # the code-to-reference links that the lemma chain rests on (parameters = reference formulas, quantize = clip(rint(x/s+zp)),
+    # dequantize = (q-zp)*s) are the C17 obligations: re-generated and re-discharged here from the current source, not cited
+    try:
+        from props import C17 as _c17
+        uqm = _c17.load_module(); qtm = importlib.import_module('ai_edge_quantizer.qtyping')
+        lg = [g for g in _c17.generate(uqm, qtm) if g.fn and g.id.split('.')[0] in ('params', 'quantize', 'dequantize')]
+        _c17.GOALS = lg; lres = core.run_pool(_c17._discharge, len(lg))
+        for g, (st, dt, be, model) in zip(lg, lres):
+            fnl = rep.fn(core.Fn(_c17.REL, g.fn)); ob = core.Ob(f'C05/uniform_quantize_tensor.{g.fn}/link.{g.id}', fnl, be, st, dt, detail=model, clause=str(g.goal)[:200])
+            if st == 'refuted' and g.law:
+                ob.replay = _c17.native_law(uqm, qtm, g.law, g.cfg, model if isinstance(model, dict) else {})
+                if not ob.replay.get('confirmed') and any(k_ in g.id for k_ in _c17.LINKS): ob.status = core.INCONCLUSIVE
+            if st != 'proved' and rep.finding_for(ob.id): continue
+            rep.add(ob)
+    except symnp.Undecided as e:
+        rep.errors.append(f'front end could not follow uniform_quantize_tensor: {e}')
+    if DECODE_FAIL:
+        # a natively failing input of the end-to-end decode stand-in is a replayed counterexample of the property itself
+        ob = core.Ob('C05/bounded.decode/stored-constant-decodes-within-the-step-bound', None, 'bounded-native', core.REFUTED, 0.0, detail=str(DECODE_FAIL[0]),
+                     clause='bytes stored by init_tensor_min_max -> _get_tensor_quant_params -> quantize_tensor decode to within half a step (symmetric) / one step (asymmetric) of the float constant')
+        ob.replay = dict(confirmed=True, inputs=DECODE_FAIL[0]); rep.add(ob)
+    elif (fails or (E2E and E2E[0][1])) and all(v == 'proved' for v in base.values()): rep.errors.append('bounded stand-in disagrees with the proved obligations')
     # covers
     s = z3.Solver(); mn, mx, x = z3.Reals('mn mx x'); Q = z3.Int('Q'); s.add(mn <= x, x <= mx, mn < 0, mx > 0, Q >= 7); rep.cover('lemmas.preconditions', s.check() == z3.sat)
     from vlib.symnp_ext import M_SYM
@@ -615,6 +639,8 @@ def replay(payload):
         rp = cc.native_params(M, inp, {'mn': str(fractions.Fraction(inp.get('min', 0.0))), 'mx': str(fractions.Fraction(inp.get('max', 0.0)))}); print(rp); return 1 if rp['confirmed'] else 0
     if fam == 'pack' and 'data' in inp:
         d = np.array(inp['data'], np.uint8); got = bytes(np.asarray(M.qt._pack_data(inp.get('bitwidth', 4), d)).astype(np.uint8)); print(dict(packed=list(got), expected=list(ref_pack(d)))); return 1 if got != ref_pack(d) else 0
+    if 'bounded.decode' in oid:
+        DECODE_FAIL.clear(); bounded(core.Report('C05', 'quick', 0), M); print(DECODE_FAIL[:1]); return 1 if DECODE_FAIL else 0
     goals = [g for g in families(M, only=[fam] if fam in FAMILIES else None) if oid.endswith('/' + g.id)]
     res = cc.discharge(goals, parallel=False)
     for g, r in zip(goals, res): print(g.id, r[0], g.observed)
